@@ -20,6 +20,7 @@ from ..absint import Evaluator, Obj, Sym, Unmodelled
 from ..core import norm, own_nodes
 from ..flow import stmt_of
 from ..geometry import reciprocal_side
+from ..facepad import respell
 from ..xmodel import make_grid
 
 EXPLANATION = (
@@ -132,6 +133,7 @@ def check(ctx):
         assert reciprocal(base, set(faces), {AX, AY})
         n = bad = 0
         first = None
+        respelled_bad = False
         edits = [((sl, v),) for sl in slots for v in alpha]
         if ctx.thorough:
             edits += [((s1, v1), (s2, v2)) for s1, s2 in itertools.combinations(slots, 2) for v1 in alpha for v2 in alpha]
@@ -144,20 +146,28 @@ def check(ctx):
             want = reciprocal(t, set(faces), {AX, AY})
             try:
                 outs = run_assign(P, {FACE: t}, n_faces=len(faces))
+                # the same table with links as lists and 0/1 flags is the same topology
+                outs_r = run_assign(P, respell({FACE: t}), n_faces=len(faces)) if len(ed) == 1 else outs
             except Unmodelled as e:
                 ctx.unknown("R17.2", f"{name}: {_show(t)}", str(e))
                 bad = -1
                 break
             n += 1
             got = all(o.kind == "return" for o in outs)
+            got_r = all(o.kind == "return" for o in outs_r)
             if got != want or len({o.kind for o in outs}) > 1:
                 bad += 1
                 first = first or (t, want, outs)
+            elif got_r != want or len({o.kind for o in outs_r}) > 1:
+                bad += 1
+                first = first or (t, want, outs_r)
+                respelled_bad = True
         if bad == -1:
             continue
         if bad:
             t, want, outs = first
-            ctx.report("R17.2", fi, f"{name}: " + _show(t), f"{bad} of {n} edited tables judged wrongly; e.g. this one must be {'accepted' if want else 'refused'}")
+            ctx.report("R17.2", fi, f"{name}: " + _show(t), f"{bad} of {n} edited tables judged wrongly; e.g. this one must be {'accepted' if want else 'refused'}"
+                       + (" when its links are written as lists with 0 / 1 for the reverse flag (the verdict depends on the spelling of the table)" if respelled_bad and got == want else ""))
         else:
             ctx.ok("R17.2", f"{name}: all single{' and double' if ctx.thorough else ''} edits", f"{n} tables, accepted exactly when reciprocal")
             ctx.note(f"edited_tables[{name}]", n)
